@@ -342,7 +342,7 @@ class C10(Check):
     ]
 
     def witnesses(self):
-        return [("D10", W.D10), ("D7", W.D7), ("D7b", W.D7b), ("D16", W.D16)]
+        return [("D10", W.D10), ("D7", W.D7), ("D7b", W.D7b), ("D16", W.D16), ("D17", W.D17)]
 
     def build(self, rng, real, big=False, byvalue=False):
         """a graph built through the protocol, plus runtime attributes with shared tuples / frozensets"""
